@@ -1168,6 +1168,44 @@ func (c *Census) Add(p *Prog) {
 		if e.K == EPipe && e.T != nil && e.T.K == TUnit {
 			c.Features["pipe.unit"]++
 		}
+		if e.K == EPipe {
+			c.Features["pipe.stage-"+e.Args[1].K.String()]++
+			for _, a := range e.Args[1].Args {
+				if !effectFree(a) {
+					c.Features["pipe.stage-effectful-arg"]++
+					break
+				}
+			}
+		}
+		if e.K == ECall && len(e.Args) < e.Arity {
+			for _, a := range e.Args {
+				if a.K == ECall && len(a.Args) < a.Arity {
+					c.Features["call.partial.of-partial-arg"]++
+				}
+				if a.K == ELam {
+					c.Features["call.partial.lambda-arg"]++
+				}
+			}
+		}
+		if e.K == EExt {
+			for _, a := range e.Args {
+				if a.T != nil && a.T.K == TFun {
+					switch {
+					case a.K == ELam:
+						c.Features["callback.lambda"]++
+					case a.K == EVar:
+						c.Features["callback.named"]++
+					case a.K == ECall:
+						c.Features["callback.partial"]++
+					case a.K == EExt:
+						c.Features["callback.ext-partial"]++
+					}
+				}
+			}
+		}
+		if e.K == EBin && (e.Op == "&&" || e.Op == "||") && !effectFree(e.Args[1]) {
+			c.Features["andor.effectful-right"]++
+		}
 		if parent != nil {
 			c.Nesting[e.K.String()+"<"+parent.K.String()]++
 		}
@@ -1180,6 +1218,20 @@ func (c *Census) Add(p *Prog) {
 			c.Features["decl.union"]++
 		case DFun:
 			c.Features["decl.fun"]++
+			for _, pa := range d.Params {
+				if pa.T.K == TUnit {
+					c.Features["decl.fun.unit-param"]++
+				}
+				if pa.T.K == TFun {
+					c.Features["decl.fun.fun-param"]++
+				}
+			}
+			if d.Ret.K == TFun {
+				c.Features["decl.fun.returns-fun"]++
+			}
+			if d.Ret.K == TUnit {
+				c.Features["decl.fun.returns-unit"]++
+			}
 			if declRecursive(d) {
 				c.Features["decl.fun.recursive"]++
 			}
